@@ -14,6 +14,7 @@ import (
 	"mellium.im/xmlstream"
 	"mellium.im/xmpp"
 	"mellium.im/xmpp/jid"
+	"mellium.im/xmpp/stanza"
 )
 
 // ErrScripted is what a scripted callback returns when told to fail.
@@ -350,11 +351,17 @@ func (env *Env) Features() []xmpp.StreamFeature {
 		case "bind":
 			if sc.Recv {
 				f = xmpp.BindCustom(func(j jid.JID, res string) (jid.JID, error) {
-					env.Rec.call(SVal{K: "bind", Err: sc.BindErr})
-					if sc.BindErr {
+					switch {
+					case sc.BindStanzaErr:
+						env.Rec.call(SVal{K: "bind", SErr: "stanza"})
+						env.Rec.cbErr("bind")
+						return jid.JID{}, stanza.Error{Type: stanza.Cancel, Condition: stanza.Conflict}
+					case sc.BindErr:
+						env.Rec.call(SVal{K: "bind", SErr: "other"})
 						env.Rec.cbErr("bind")
 						return jid.JID{}, ErrScripted
 					}
+					env.Rec.call(SVal{K: "bind"})
 					return j.WithResource("r1")
 				})
 			} else {
